@@ -229,6 +229,56 @@ SPARSE = [
 ]
 
 
+def w_glue(case):
+    """one pipeline over the real Ok / Err / catch"""
+    from fcp.result import Ok, Err
+    from fcp.maybe import catch
+
+    kind, v = case["start"]
+    r = Ok(v) if kind == "ok" else Err(v)
+    for op in case["ops"]:
+        name, x, y = (op + [0, 0])[:3]
+        if name == "map":
+            r = r.map(lambda a: a + x)
+        elif name == "map_err":
+            r = r.map_err(lambda e: e * 2 + x)
+        elif name == "and_then":
+            r = r.and_then(lambda a: Ok(a + y) if a % 3 != x else Err(a))
+        elif name == "or_else":
+            r = r.or_else(lambda e: Ok(e + y) if e % 3 == x else Err(e - 1))
+        elif name == "catch_attempt":
+            r = catch(lambda: Ok(r.attempt() + x))()
+    # read the verdict the way callers do: is_ok / is_err, never through truthiness
+    if r.is_ok() == r.is_err():
+        return ["broken", 0]
+    return ["ok", r.unwrap()] if r.is_ok() else ["err", r.err() if not callable(getattr(r, "unwrap_err", None)) else r.unwrap_err()]
+
+
+def check_glue(rep, rng, tier):
+    """`Result` pipelines (payloads include 0, the falsy one) on the real classes against the Except model of Glue.lean"""
+    n = 600 if tier == "quick" else 20000
+    cases = []
+    for _ in range(n):
+        ops = []
+        for _ in range(rng.randint(1, 6)):
+            name = rng.choice(["map", "map_err", "and_then", "or_else", "catch_attempt"])
+            ops.append([name, rng.randint(0, 2) if name in ("and_then", "or_else") else rng.choice([0, 0, 1, -1, 5]), rng.choice([0, 1, -3])])
+        cases.append({"start": [rng.choice(["ok", "err"]), rng.choice([0, 0, 1, 2, 3, -1, 7])], "ops": ops})
+    res = run_cases("harness.genmgr", "w_glue", cases, timeout_s=20)
+    model = run_driver_parallel([{"op": "glue", "items": cases[k:k + 100]} for k in range(0, n, 100)])
+    flat = [x for m in model for x in m.get("items", [])]
+    for c, r, m in zip(cases, res, flat):
+        rep.cov["evaluations"] += 1
+        got = r.get("ok")
+        rep.hist("result_pipelines", "same as the model" if got == m else "differs")
+        if got != m:
+            rep.cov["disagreements_checked"] += 1
+            # an Err that turns into an Ok on its way through Ok-side combinators is the gate failing (theorem run_err_absorbs)
+            rep.violation({"kind": "result-glue", "pipeline": c, "observed": r, "expected": m,
+                           "what": "a Result pipeline on the real Ok/Err/catch classes ends differently from the Except model "
+                                   "(payload 0 is falsy: nothing may depend on that)"}, no_input=False)
+
+
 def gen_case(rng):
     if rng.random() < 0.15:
         text, poison = rng.choice(SPARSE)
@@ -298,6 +348,7 @@ def run_c10(prop, tier):
                                 "position": rng.choice(["only", "after-pass", "before-pass"])}})
             c["poison"] = ("vtest:" + c["vtest"]["payload"]) if c["vtest"]["reject"] else None
         cases.append(c)
+    check_glue(rep, rng, tier)
     ires = run_cases("harness.genmgr", "w_generate", cases, timeout_s=120)
     lcases = []
     idx = []
